@@ -27,6 +27,14 @@ macro_rules! dispatch {
                 let $p = PP(props::c01::C01);
                 $body
             }
+            "C02" => {
+                let $p = PP(props::c02::C02);
+                $body
+            }
+            "C03" => {
+                let $p = PP(props::c03::C03);
+                $body
+            }
             "C04" => {
                 let $p = PP(props::c04::C04);
                 $body
